@@ -195,6 +195,36 @@ func checkC11(c *Ctx) {
 			}
 		}
 	}
+	// the harnesses below run the cumulative pass on a file value: if the function that stores the times does not take
+	// the file itself (e.g. it became a method of the tempo list with the resolution as argument), they run the
+	// finalisation entry that calls it (the function that sets the "finished" latch) — sorting is the identity there
+	if cum != nil && !(len(cum.Params) == 1 && types.Identical(cum.Params[0].Type(), types.NewPointer(smfT))) {
+		if flag := p.roleField("smf.SMF", "tempoChangesFinished"); flag != nil {
+			if sp := p.Pkg("smf"); sp != nil {
+				for _, f := range pkgFuncsWithClosures(sp, p) {
+					if len(f.Params) != 1 || !types.Identical(f.Params[0].Type(), types.NewPointer(smfT)) {
+						continue
+					}
+					setsLatch, reaches := false, false
+					for _, b := range f.Blocks {
+						for _, in := range b.Instrs {
+							if st, ok := in.(*ssa.Store); ok && fieldVar(st.Addr) == flag {
+								setsLatch = true
+							}
+						}
+					}
+					for _, g := range p.Reachable(f) {
+						if g == cum {
+							reaches = true
+						}
+					}
+					if setsLatch && reaches {
+						cum = f
+					}
+				}
+			}
+		}
+	}
 	if cum == nil {
 		c.Unk("C11.3", "cumulative pass (stores AbsTimeMicroSec)", "-", "not found")
 	} else {
